@@ -212,6 +212,9 @@ class Driver:
         order = ["time", "measurement", "tags", "fields", "unset_fields", "unset_tags"]
         if u is not None and u.get("invalid"):
             return fn(*pre, **kw)
+        # ... or every argument by keyword (both are ordinary uses of the public API); chosen by the update itself
+        if len(repr(sorted(kw))) % 2 == 0:
+            return fn(*pre, **kw)
         args = [kw.get(n) for n in order]
         while args and args[-1] is None:
             args.pop()
